@@ -377,7 +377,7 @@ func (g *gctx) intExpr(T Type, depth int, needDyn bool) (*Expr, bool) {
 		// Call of a helper with a single integer result.
 		var fs []*Func
 		for _, f := range g.prog.Funcs {
-			if f != g.fn && len(f.Results) == 1 && f.Results[0].IsInt() {
+			if f != g.fn && len(f.Results) == 1 && f.Results[0].IsInt() && g.callable(f) {
 				fs = append(fs, f)
 			}
 		}
@@ -402,6 +402,12 @@ func (g *gctx) argFor(T Type, depth int) *Expr {
 	case T.K == KBool:
 		x, _ := g.boolExpr(depth, true)
 		return x
+	case T.K == KArray || T.K == KStruct:
+		for _, nv := range g.visible() {
+			if nv.v.T.Equal(T) {
+				return &Expr{Op: EVar, T: T, Name: nv.name}
+			}
+		}
 	}
 	panic("generator: unsupported argument type " + T.String())
 }
@@ -653,7 +659,7 @@ func (g *gctx) stmt() (*Stmt, bool) {
 		// Multi-result call.
 		var fs []*Func
 		for _, f := range g.prog.Funcs {
-			if f != g.fn && len(f.Results) >= 2 {
+			if f != g.fn && (len(f.Results) >= 2 || !isScalar(f.Results[0])) && g.callable(f) {
 				fs = append(fs, f)
 			}
 		}
@@ -735,6 +741,26 @@ func (g *gctx) aliasIdiom() *Stmt {
 	return first
 }
 
+// callable tells whether every aggregate parameter of f has a matching
+// variable in scope (aggregates are passed as whole variables).
+func (g *gctx) callable(f *Func) bool {
+	for _, pa := range f.Params {
+		if isScalar(pa.T) {
+			continue
+		}
+		ok := false
+		for _, nv := range g.visible() {
+			if nv.v.T.Equal(pa.T) {
+				ok = true
+			}
+		}
+		if !ok {
+			return false
+		}
+	}
+	return true
+}
+
 func (g *gctx) arrayLen() int {
 	if g.o.DynIndex && g.chance(50, "pow2len") {
 		return []int{2, 4, 8}[g.intn(0, 2, "pow2")]
@@ -743,6 +769,37 @@ func (g *gctx) arrayLen() int {
 }
 
 func (g *gctx) forStmt() *Stmt {
+	if g.o.Arrays && g.chance(30, "forrange") {
+		// for i, v := range arr
+		var arrs []named
+		for _, nv := range g.visible() {
+			if nv.v.T.K == KArray && nv.v.T.E.IsInt() {
+				arrs = append(arrs, nv)
+			}
+		}
+		if len(arrs) > 0 {
+			nv := arrs[g.intn(0, len(arrs)-1, "rangearr")]
+			s := &Stmt{K: SForRange, Var: fmt.Sprintf("i%d", len(g.loops)), Name: g.fresh(),
+				E: &Expr{Op: EVar, T: nv.v.T, Name: nv.name}}
+			g.loops = append(g.loops, loopVar{s.Var, nv.v.T.N})
+			// The ranged array is not assigned inside its own range
+			// loop (whether the loop sees such updates is not fixed
+			// by the docs or the annotated programs).
+			wasRO := nv.v.RO
+			nv.v.RO = true
+			defer func() { nv.v.RO = wasRO }()
+			g.push()
+			g.top()[s.Name] = &varInfo{T: *nv.v.T.E, Dyn: wasRO, RO: true}
+			n := g.intn(1, 3, "loopbody")
+			for i := 0; (i < n && g.budget > 0) || len(g.pending) > 0; i++ {
+				st, _ := g.stmtNoReturn()
+				s.Body = append(s.Body, st)
+			}
+			g.pop()
+			g.loops = g.loops[:len(g.loops)-1]
+			return s
+		}
+	}
 	s := &Stmt{K: SFor, Var: fmt.Sprintf("i%d", len(g.loops)), Count: g.intn(1, 5, "loopcount")}
 	if g.chance(20, "forstep") {
 		s.ForStep = "add"
@@ -902,6 +959,9 @@ func declared(list []*Stmt) map[string]bool {
 				}
 			case SFor:
 				res[s.Var] = true
+			case SForRange:
+				res[s.Var] = true
+				res[s.Name] = true
 			}
 			walk(s.Then)
 			walk(s.Else)
@@ -1088,13 +1148,34 @@ func Draw(t *rapid.T, o Opts) *Prog {
 			if i > 0 && g.chance(15, "hboolparam") {
 				T = Bool()
 			}
+			if i > 0 && o.Arrays && g.chance(20, "haggparam") {
+				if len(g.prog.Structs) > 0 && g.chance(50, "hstructparam") {
+					T = Type{K: KStruct, S: g.prog.Structs[0].Name}
+				} else {
+					T = Array(g.intn(1, 4, "hparamlen"), g.pickType("hparamelem"))
+				}
+			}
 			f.Params = append(f.Params, Param{Name: fmt.Sprintf("p%d", i), T: T})
 		}
 		nres := g.intn(1, 2, "hresults")
 		for i := 0; i < nres; i++ {
-			f.Results = append(f.Results, g.scalarType())
+			R := g.scalarType()
+			if o.Arrays && g.chance(15, "haggresult") {
+				if len(g.prog.Structs) > 0 && g.chance(50, "hstructresult") {
+					R = Type{K: KStruct, S: g.prog.Structs[0].Name}
+				} else {
+					R = Array(g.intn(1, 4, "hreslen"), g.pickType("hreselem"))
+				}
+			}
+			f.Results = append(f.Results, R)
 		}
-		if g.chance(25, "namedresults") {
+		allScalar := true
+		for _, r := range f.Results {
+			if !isScalar(r) {
+				allScalar = false
+			}
+		}
+		if allScalar && g.chance(25, "namedresults") {
 			for i := range f.Results {
 				f.ResultNames = append(f.ResultNames, fmt.Sprintf("r%d_%d", h, i))
 			}
